@@ -768,6 +768,10 @@ fn c_quote(s: &[u8], rng: &mut Rng, gratuitous: bool) -> Vec<u8> {
             b'\n' => o.extend_from_slice(b"\\n"),
             b'\t' => o.extend_from_slice(b"\\t"),
             b'\r' => o.extend_from_slice(b"\\r"),
+            7 if rng.chance(2, 3) => o.extend_from_slice(b"\\a"),
+            8 if rng.chance(2, 3) => o.extend_from_slice(b"\\b"),
+            11 if rng.chance(2, 3) => o.extend_from_slice(b"\\v"),
+            12 if rng.chance(2, 3) => o.extend_from_slice(b"\\f"),
             1..=0x1f | 0x7f..=0xff => o.extend_from_slice(format!("\\{:03o}", b).as_bytes()),
             b'/' | b'.' => o.push(b),
             _ if gratuitous && rng.chance(1, 6) => o.extend_from_slice(format!("\\{:03o}", b).as_bytes()),
@@ -872,7 +876,7 @@ fn render_entry(rng: &mut Rng, d: &Comps, t: &Comps, root: &Comps, style: u64) -
 
 const BASES: &[&str] = &["/R", "/R/a", "/R/a/b", "/R/a/b/c", "/S", "/S/x/y", "/R/b", "/R/a/c", "/S/x/y/z/w"];
 const TAILS: &[&str] = &["", "/objects", "/.git/objects", "/o", "/x/y/objects"];
-const ODD: &[&[u8]] = &[b"ob j", b"t\tab", b"q\"uo", b"b\\s", b"\xc3\xa9", b"#h", b"\"lead", b"n\nl", b"c\rr", b"\x7f"];
+const ODD: &[&[u8]] = &[b"ob j", b"t\tab", b"q\"uo", b"b\\s", b"\xc3\xa9", b"#h", b"\"lead", b"n\nl", b"c\rr", b"\x7f", b"v\x0bt", b"be\x07l", b"f\x0cf\x08"];
 
 fn node_path(rng: &mut Rng, i: usize) -> Vec<u8> {
     let mut p = rng.pick(BASES).as_bytes().to_vec();
@@ -1009,6 +1013,10 @@ fn boundary() -> Vec<Case> {
         // quoting, comment
         fixed_case("/R/a/o", &[("/R/a/o", "a# c\n\"../../b\\tx/o\"\n"), ("/R/b\tx/o", "d")]),
         fixed_case("/R/a/o", &[("/R/a/o", "a\"/R/b\\303\\251/o\"\n"), ("/R/b\u{e9}/o", "d")]),
+        fixed_case(
+            "/R/a/o",
+            &[("/R/a/o", "a\"../../b\\a\\b\\f\\v\\r\\n\\t\\\\\\\"/o\"\n"), ("/R/b\u{7}\u{8}\u{c}\u{b}\r\n\t\\\"/o", "d")],
+        ),
         // missing directory, regular file
         fixed_case("/R/a/o", &[("/R/a/o", "a../../nope/o\n../../b/o\n"), ("/R/b/o", "d")]),
         fixed_case("/R/a/o", &[("/R/a/o", "a../../zz/../b/o\n"), ("/R/b/o", "d")]),
